@@ -9,6 +9,7 @@ func init() {
 	add := func(id, rule, file, old, new, expect string) {
 		AddControl(Control{ID: id, Prop: "C04", Rule: rule, File: file, Old: old, New: new, ExpectKey: expect})
 	}
+	add("c04-leafs-gap-recut-relative", "C04.leafs", D, "\t\t\tminMaxRange = ranges.MinMax(minMaxRange, v.Range)\n", "\t\t\tminMaxRange = ranges.MinMax(minMaxRange, v.Range)\n\t\t\tif bb, ok := v.V.(*scalar.BitBuf); ok && bb.Flags.IsGap() {\n\t\t\t\tif gapBR, err := bitiox.Range(br, v.Range.Start, v.Range.Len); err == nil {\n\t\t\t\t\tbb.Actual = gapBR\n\t\t\t\t}\n\t\t\t}\n", "gap-value:actual-final")
 	// C04.sort
 	add("c04-sort-descending", "C04.sort", R, "cmp.Compare(a.Start, b.Start)", "cmp.Compare(b.Start, a.Start)", "Gaps:sort-key")
 	// C04.merge
